@@ -162,11 +162,11 @@ def run(ctx):
         if not sc.feasible(p):
             continue
         for _ in sc.enumerate_schedules(lambda d: one_run(ctx, p, decisions=d, items=items, tag="corpus-exhaustive"),
-                                        ctx.n(60, 600)):
+                                        ctx.n(30, 600)):
             pass
         base.flush(ctx, items)
     n = 0
-    while n < ctx.n(60, 700):
+    while n < ctx.n(34, 700):
         wide = n % 3 == 2
         p = sc.gen_wide(rng) if wide else sc.gen_program(rng, p_limits=0.8, allow_badexec=False)
         if not sc.feasible(p):
